@@ -3150,7 +3150,8 @@ make_task(struct ical_vevent_s *ve)
 			ve->t.due = echs_instant_to_utc(ve->due);
 			ve->t.vtod_typ = VTOD_TYP_DUE;
 		}
-	} else if (!ve->rrul.nr && !ve->rdat.ndt) {
+	} else if (!ve->rrul.nr && !ve->rdat.ndt &&
+		   !ve->xrul.nr && !ve->xdat.ndt) {
 		/* not an rrule but a normal vevent */
 		/* free all the bits and bobs that
 		 * might have been added */
@@ -3221,8 +3222,12 @@ make_task(struct ical_vevent_s *ve)
 					(echs_evstrm_t[]){rr, r1}, 2U);
 			} else if (rr != NULL) {
 				sr = rr;
-			} else {
+			} else if (r1 != NULL) {
 				sr = r1;
+			} else {
+				/* just the one occurrence, DTSTART, which
+				 * the exceptions may well name */
+				sr = __make_evvevt(e);
 			}
 		}
 
